@@ -265,6 +265,19 @@ theorem residual_identity (s : Spec) (beta : QMat) (Y X : OMat) (i t : Nat) (y r
   · cases hr
 
 
+/-- **deviation mode** (`create_deviation_solution`): the companion constant without an intercept is zero in every entry, and
+with an intercept it is `c` on the first block only — the two forms differ exactly by the intercept, so a request for one must
+never be answered with the other -/
+theorem companionK_spec (s : Spec) (c : QVec) (i : Nat) :
+    (companionK s none).getD i 0 = 0 ∧
+    (i < s.numLagged → (companionK s (some c)).getD i 0 = if i < s.n then c.getD i 0 else 0) := by
+  unfold companionK
+  simp only [Array.getD_eq_getD_getElem?, Array.getElem?_map, Array.getElem?_range]
+  constructor
+  · by_cases h : i < s.numLagged <;> simp [h]
+  · intro h
+    simp [h]
+
 /-! ### simulation -/
 
 /-- **Simulating with residuals defined by the data returns the data** — for every horizon `len`, every order,
